@@ -23,6 +23,15 @@ FIXED = [
     "int x = ; void (e(  { return 1 + ; }\nint ok;\n",
     "typedef short char16_t; typedef int char32_t; void k(void) { u'a'; U'b'; u\"s\"; 1 ? 2 : 3; }\n",
     "double d = 1.5f + 2; unsigned long ul; long long ll; void m(void) { ul + ll; d * ul; ul << 2; }\n",
+    # every basic type spelled in unusual specifier orders (the binder combines the keywords of a list step by step: whatever object it
+    # updates in place must be this tree's own) ...
+    "float _Complex fc; double _Complex dc; long double _Complex ldc; _Complex float cf; long unsigned int lui; int long long unsigned illu; "
+    "char signed cs; char unsigned cu; short int unsigned siu; double long dl; long long int ll2; signed s1; unsigned u1; _Bool bb; long int signed lis; "
+    "int short is1; unsigned char uc2; long _Complex double lcd;\n",
+    # ... and every basic type used plainly, with constants of every suffix, in another tree
+    "float f1 = 1.0f; double d1 = 2.0; long double ld1 = 3.0L; int i1 = 1; unsigned u2 = 1u; long l1 = 1L; unsigned long ul1 = 1UL; long long ll1 = 1LL; "
+    "unsigned long long ull1 = 1ULL; char c1 = 'a'; signed char sc1; unsigned char uc1; short s2; unsigned short us2; _Bool b1; "
+    "void n(void) { f1 < 1.0f; d1 + f1; ld1 * d1; i1 + u2; l1 - ul1; ll1 << 1; ull1 / 2; c1 + s2; sc1 + uc1; us2 - s2; b1 || i1; }\n",
 ]
 
 
@@ -126,7 +135,7 @@ def run(ctx):
                            {"component": "histories", "case": line, "ops": ops, "trees": [texts[i] for i in ids]})
     ctx.cov.update({
         "evaluations": len(lines), "traces_validated_against_impl": len(lines), "distinct_nontrivial": ndump, "exhaustive": False,
-        "rule": "baseline = each of %d trees (7 fixed ones using ptrdiff_t/size_t/wchar_t/char16_t/char32_t typedefs, pointer difference, wide/u/U literals, struct/enum, an erroneous text; + generated programs) alone in a fresh process, twice; then all add/compute/query histories up to length %d over ordered pairs of trees (longest length sampled) and random histories of up to 17 calls over 2-4 trees, all run in shared processes in shuffled order; every dump after computation must equal the baseline" % (len(texts), L),
+        "rule": "baseline = each of %d trees (9 fixed ones using ptrdiff_t/size_t/wchar_t/char16_t/char32_t typedefs, pointer difference, wide/u/U literals, struct/enum, an erroneous text, every basic type in unusual specifier orders, every basic type used plainly with constants of every suffix; + generated programs) alone in a fresh process, twice; then all add/compute/query histories up to length %d over ordered pairs of trees (longest length sampled) and random histories of up to 17 calls over 2-4 trees, all run in shared processes in shuffled order; every dump after computation must equal the baseline" % (len(texts), L),
         "samples": [lines[0][:200], lines[-1][:200]],
     })
     ctx.notes.update({"histories": len(lines), "dumps_compared": ndump, "violations": nviol, "trees": len(texts)})
